@@ -14,7 +14,8 @@ func init() { streams["fsutil"] = runFsutil }
 // Stream fsutil (C17).
 //
 // Correspondence: path.Clean, filepath.Join and fsutil.ResolveUrlPath (the real functions) against
-// the Lean model (ops clean / join / resolve / nf), exhaustively on every string up to length
+// the Lean model (ops clean / join / resolve / nf; cleanb / resolveb = the same real results against the
+// byte-level transcription of the stdlib lazybuf loop, Model/PathCleanBytes.lean), exhaustively on every string up to length
 // 6 (quick) / 8 (thorough) over {'/', '.', 'a', '\'} x a fixed list of bases, on all pairs of short
 // strings, and on random strings over a larger alphabet.
 //
@@ -115,9 +116,17 @@ func runFsutil(cfg Cfg) {
 	s.Rule = "every string up to length 6 (quick) / 8 (thorough) over {'/','.','a','\\\\'} as url x 10 bases (absolute, relative, '.', '..', needing Clean, trailing slash), all pairs (base,url) of such strings up to length 3/4, random bases x random urls over a larger alphabet (NUL, space, '~', high bytes, UTF-8); non-trivial = a resolve whose url has a '..' segment, is empty, lacks the leading slash, or has an empty (repeated/trailing slash) segment; distinct by (clean base, url normal form, result)"
 	rng := NewRng(cfg.Seed)
 
+	// resolveB: ResolveUrlPath computed through the byte-level Clean (op resolveb) against the real
+	// result; emitted for the hand-picked, pair and random cases (the exhaustive url domain compares the
+	// byte-level Clean itself on every string, op cleanb).
+	resolveB := false
 	resolve := func(base, url string, record bool) {
 		res := fsutil.ResolveUrlPath(base, url)
 		s.Line("resolve "+hxs(base)+" "+hxs(url), hxs(res))
+		if resolveB {
+			s.Line("resolveb "+hxs(base)+" "+hxs(url), hxs(res))
+			s.Count("resolveb")
+		}
 		if base == "" {
 			s.Count("resolve.empty-base(correspondence only)")
 			return
@@ -155,17 +164,21 @@ func runFsutil(cfg Cfg) {
 	clean := func(p string) {
 		c := path.Clean(p)
 		s.Line("clean "+hxs(p), hxs(c))
+		s.Line("cleanb "+hxs(p), hxs(c)) // byte-level transcription of the stdlib loop
 		if fc := filepath.Clean(p); fc != c {
 			s.Notes = append(s.Notes, fmt.Sprintf("filepath.Clean(%q)=%q differs from path.Clean=%q: not a POSIX build?", p, fc, c))
 		}
 		s.Line("nf "+hxs(p), implNF(p))
 		s.Count("clean")
+		s.Count("cleanb")
 	}
 
 	// a few hostile hand-picked cases first (also the evidence samples)
+	resolveB = true
 	for _, u := range []string{"../../etc/passwd", "a/../../b", "", "x", "/..", "/a/./b/../../..//c/"} {
 		resolve("/data", u, true)
 	}
+	resolveB = false
 
 	// 1. exhaustive small domain
 	alpha := []byte{'/', '.', 'a', '\\'}
@@ -198,6 +211,7 @@ func runFsutil(cfg Cfg) {
 
 	// 2. all pairs of short strings (bases of every spelling, the empty base for Join)
 	pairLen := cfg.N(3, 4)
+	resolveB = true
 	var shorts []string
 	enum(pairLen, func(u string) { shorts = append(shorts, u) })
 	for _, a := range shorts {
